@@ -55,9 +55,9 @@ func (in *Instance) AbstractKey(k []byte) M {
 		e := in.T.AttesterSym(s[len(pfxAttester) : len(s)-1])
 		return M{"k": "attester", "id": M{"key": e.Key, "sp": e.Sp}}
 	case strings.HasPrefix(s, pfxLimit) && strings.HasSuffix(s, "/"):
-		return M{"k": "limit", "id": in.T.DenomSym(s[len(pfxLimit) : len(s)-1])}
+		return M{"k": "limit", "id": M{"denom": in.T.DenomSym(s[len(pfxLimit) : len(s)-1])}}
 	case strings.HasPrefix(s, pfxMsgr) && len(s) == len(pfxMsgr)+5 && s[len(s)-1] == '/':
-		return M{"k": "msgr", "id": in.T.DomSym(binary.BigEndian.Uint32(k[len(pfxMsgr):]))}
+		return M{"k": "msgr", "id": M{"d": in.T.DomSym(binary.BigEndian.Uint32(k[len(pfxMsgr):]))}}
 	case strings.HasPrefix(s, pfxUsed) && len(s) == len(pfxUsed)+13 && s[len(s)-1] == '/':
 		r := k[len(pfxUsed):]
 		return M{"k": "used", "id": M{"d": in.T.DomSym(binary.BigEndian.Uint32(r[:4])), "n": in.T.NonceSym(binary.BigEndian.Uint64(r[4:12]))}}
@@ -67,7 +67,7 @@ func (in *Instance) AbstractKey(k []byte) M {
 		}
 		return M{"k": "pair", "id": M{"d": "?", "t": b32m(B32{N: 32, Hi: "?", Lo: "?" + hex.EncodeToString(k[len(pfxPair):len(k)-1])})}}
 	}
-	return M{"k": "?", "id": hex.EncodeToString(k)}
+	return M{"k": "?", "id": M{"raw": hex.EncodeToString(k)}}
 }
 
 // pbFields parses top-level protobuf fields (enough for the small value types of the store).
